@@ -17,7 +17,7 @@ E(n,k,m,t,c,tg) == [name |-> n, k |-> k, m |-> m, t |-> t, c |-> c, tgt |-> tg]
 \* --- safety alphabet (C01 / C04 / C12): hostile names and targets ---
 NamesQ == { <<"a">>, <<"s","a">>, <<"s","u">>, <<"","a">>, <<"..","dx","f">>, <<"..","v">>, <<"s","..","a">>, <<"x","..","a","f">> }
 NamesT == NamesQ \cup { <<"b">>, <<"s","">>, <<".","b">>, <<"b","c">>, <<"">>, <<"","">>, <<".">>, <<"s","","a">>, <<"..","d","a">> }
-TargetsQ == { <<"b">>, <<"..">>, <<"..","dx">>, <<"s","u","..","v">>, <<"s","u","..","w">>, <<"","A","v">>, <<"s">>, <<"","A","d","a">>, <<"..","..","w">>, <<"a","..","..","w">> }
+TargetsQ == { <<"b">>, <<"..">>, <<"..","d","a">>, <<"..","dx">>, <<"s","u","..","v">>, <<"s","u","..","w">>, <<"","A","v">>, <<"s">>, <<"","A","d","a">>, <<"..","..","w">>, <<"a","..","..","w">> }
 TargetsT == TargetsQ \cup { <<"..","..","v">>, <<"..","a">>, <<"s","u","..","w">>, <<".">>, <<"","A","dx">> , <<"u","..","..","v">> }
 
 Alpha(Names, Targets) ==
